@@ -85,6 +85,8 @@ class G:
                 if f == "fsel":
                     args = "%s, %s, %s" % (r.choice(ARRS + STRS), self.expr(0), self.expr(0))
                 else:
+                    if r.random() < 0.12:
+                        ar = r.choice([0, 1, 2, 3])      # sometimes the wrong number of arguments: the arity error
                     args = ", ".join(self.any_expr(1) for _ in range(ar))
                 return r.choice(["%s(%s)" % (f, args), "%s = %s(%s)" % (r.choice(NAMES), f, args)])
             if k < 0.30:
